@@ -196,6 +196,8 @@ type Exec struct {
 	mu          sync.Mutex
 	modelVals   []modelVal
 	plan        *inputPlan
+	concTypes   map[string]types.Type
+	ifaceTypes  map[string]*types.Interface
 }
 
 type dryRun struct {
@@ -210,7 +212,7 @@ type dryRun struct {
 }
 
 func NewExec(prog *Program, fn *ssa.Function, c *Contract) *Exec {
-	ex := &Exec{prog: prog, ts: NewTermStore(), root: fn, contract: c, obls: map[string]*Obligation{}, regionSorts: map[string]*Sort{}, arrFieldIdx: map[string]int{}, immutableGlobals: prog.Immutable, maxPaths: 20000, assumptions: map[string]bool{}, typeTags: map[string]int64{}, axiomSeen: map[int]bool{}, loopInfo: map[*ssa.Function]*loopAnalysis{}, siteSeq: map[string]int{}, sharedCells: map[*Cell]bool{}}
+	ex := &Exec{prog: prog, ts: NewTermStore(), root: fn, contract: c, obls: map[string]*Obligation{}, regionSorts: map[string]*Sort{}, arrFieldIdx: map[string]int{}, immutableGlobals: prog.Immutable, maxPaths: 20000, assumptions: map[string]bool{}, typeTags: map[string]int64{}, axiomSeen: map[int]bool{}, loopInfo: map[*ssa.Function]*loopAnalysis{}, siteSeq: map[string]int{}, sharedCells: map[*Cell]bool{}, concTypes: map[string]types.Type{}, ifaceTypes: map[string]*types.Interface{}}
 	ex.bv = c != nil && c.Mode == "bv"
 	if c != nil {
 		if ab, ok := c.Options["allocbound"]; ok {
